@@ -640,12 +640,33 @@ func checkAlgebra(p *Prog, r *Report, ctor *ssa.Function, s *Seg, nParam *ssa.Pa
 	pos := p.Pos(ctor.Pos())
 	state := map[ssa.Value]*sym{}
 	alias := map[ssa.Value]ssa.Value{}
+	curOrd := 0
 	obj := func(v ssa.Value) ssa.Value {
 		v = s.Resolve(v)
 		for i := 0; i < 8; i++ {
 			if a, ok := alias[v]; ok {
 				v = a
 				continue
+			}
+			// a field of the iterator literal read back (`it.startI = new(big.Int).Set(it.I)`): the object
+			// last stored into that field on this path
+			if u, isU := v.(*ssa.UnOp); isU && u.Op == token.MUL {
+				if fa, isFA := u.X.(*ssa.FieldAddr); isFA {
+					if _, isLocal := s.Resolve(fa.X).(*ssa.Alloc); isLocal {
+						var last ssa.Value
+						for _, e := range s.Events {
+							if e.Kind == EvStore && e.Ord < curOrd {
+								if fb, isFB := e.Addr.(*ssa.FieldAddr); isFB && s.Resolve(fb.X) == s.Resolve(fa.X) && fb.Field == fa.Field {
+									last = e.Val
+								}
+							}
+						}
+						if last != nil {
+							v = s.Resolve(last)
+							continue
+						}
+					}
+				}
 			}
 			break
 		}
@@ -692,7 +713,28 @@ func checkAlgebra(p *Prog, r *Report, ctor *ssa.Function, s *Seg, nParam *ssa.Pa
 		}
 		return nil
 	}
-	val := func(v ssa.Value) *sym { return state[obj(v)] }
+	val := func(v ssa.Value) *sym {
+		if sv, ok := state[obj(v)]; ok {
+			return sv
+		}
+		// a read-only package-level big.Int constant (`var bigOne = big.NewInt(1)`)
+		if g := globalOfLoad(s.Resolve(v)); g != nil && g.Pkg != nil && len(p.StoresToGlobalOutsideInit(g)) == 0 {
+			if init := g.Pkg.Func("init"); init != nil {
+				for _, b := range init.Blocks {
+					for _, in := range b.Instrs {
+						if st, isSt := in.(*ssa.Store); isSt && st.Addr == ssa.Value(g) {
+							if c, isC := st.Val.(*ssa.Call); isC && calleeFull(&c.Call) == "math/big.NewInt" {
+								if k, isK := constInt(c.Call.Args[0]); isK {
+									return atomS(fmt.Sprint(k))
+								}
+							}
+						}
+					}
+				}
+			}
+		}
+		return nil
+	}
 	undec := ""
 	var snapshot map[string]ssa.Value // iterator field -> object pointer at the first Next call
 	var snapVals map[string]*sym
@@ -715,6 +757,7 @@ func checkAlgebra(p *Prog, r *Report, ctor *ssa.Function, s *Seg, nParam *ssa.Pa
 		if e.Kind != EvCall {
 			continue
 		}
+		curOrd = e.Ord
 		cf := calleeFull(e.Call)
 		args := e.Call.Args
 		switch {
